@@ -8,8 +8,8 @@ CONSTANTS
   JCmds = {"poll", "hdrop", "cancel"}
   HCmds = {"tick", "clear", "execdrop"}
   Spurious = TRUE
-  Strict = FALSE
-  Fix = {}
-  MaxLen = 70
+  Strict = TRUE
+  Fix = {"D10a", "D10b", "D11", "D12"}
+  MaxLen = 80
 SPECIFICATION GSpec
 INVARIANTS Emit
